@@ -8,7 +8,7 @@
    [total_preorder] is discharged (CollateUse.rank_total_preorder_for_sets); and the C02_raw_default_*
    theorems: the same for [Pool.rk_default] on RAW values — the ranking the pool model executes for a
    Set with the default collator — under [Forall inUd] (inUd v := inU cmax v = true; SetTransfer.v). *)
-From Verif Require Import Base Seq Coll SetProofs Value CollateRank CollateUse SetProofs2 SetTransfer.
+From Verif Require Import Base Sorter SorterProofs2 Seq Coll SetProofs Value Pool CollateRank CollateUse SetProofs2 SetTransfer CoarseProofs.
 
 Theorem C02_search_terminates_for_every_ranker :
   forall (A : Type) (zero : A) (rank : A -> A -> comparison) (l : list A) (v : A),
@@ -578,6 +578,32 @@ Theorem C02_default_collator_reversed_history_is_the_mathematical_set :
 Proof. exact dc_rev_history_membership. Qed.
 
 
+(* ====================================================================================================
+   Round 3: the coarse collator of the correspondence (Pool.rk_coarse = harness rankWith case 2: integers
+   by floor(x/4), strings by length, every other pair — in particular every pair of DIFFERENT kinds under
+   element type `any` — by the default ranking) is a total preorder on the universe of the default
+   collator, so the caller-supplied-collator hypothesis of the Set theorems holds for it, mixed kinds included
+   ([rkc a b := rk_coarse (pU a) (pU b)] on universe members).
+   ==================================================================================================== *)
+Theorem C02_coarse_collator_is_a_total_preorder : total_preorder (U cmax) rkc.
+Proof. exact rk_coarse_total_preorder_for_sets. Qed.
+
+Theorem C02_coarse_collator_every_history_strictly_ordered :
+  forall (zero : U cmax) (ops : list (sop (U cmax))) (l : list (U cmax)),
+  StrictSorted (U cmax) rkc l ->
+  exists l' : list (U cmax), srun (U cmax) zero rkc l ops = Ret l' /\ StrictSorted (U cmax) rkc l'.
+Proof. exact coarse_history_strictly_ordered. Qed.
+
+(* non-vacuity: a mixed `any` sample (nil, bool, float, four ints, a rune, two strings, an unsigned) lies in
+   the universe and is ascending under the coarse ranking; 1 and 2 are rank-equal (same x/4), -3 is below
+   (floor division), "x" is below "ab" (length), every int is below every string *)
+Example C02_coarse_collator_example :
+  forallb (inU cmax) ex_mixed = true /\ ascendingb rk_coarse ex_mixed = true /\
+  rk_coarse (VInt 64 1) (VInt 64 2) = Eq /\ rk_coarse (VInt 64 (-3)) (VInt 64 1) = Lt /\
+  rk_coarse (VStr [120]%Z) (VStr [97; 98]%Z) = Lt /\ rk_coarse (VInt 64 9) (VStr [120]%Z) = Lt /\
+  rk_coarse (VStr [120]%Z) (VInt 64 9) = Gt /\ rk_coarse (VFloat 64 0) (VInt 64 (-3)) = Lt.
+Proof. repeat split; vm_compute; reflexivity. Qed.
+
 Print Assumptions C02_search_terminates_for_every_ranker.
 Print Assumptions C02_search_found.
 Print Assumptions C02_search_absent.
@@ -614,3 +640,5 @@ Print Assumptions C02_get_index_agrees_with_get_value.
 Print Assumptions C02_default_collator_get_index_agrees_with_get_value.
 Print Assumptions C02_default_collator_reversed_history_strictly_ordered.
 Print Assumptions C02_default_collator_reversed_history_is_the_mathematical_set.
+Print Assumptions C02_coarse_collator_is_a_total_preorder.
+Print Assumptions C02_coarse_collator_every_history_strictly_ordered.
